@@ -8,6 +8,7 @@ event-bucket functions and that the run-loop model is a function of the observat
 """
 import copy
 import datetime
+import json
 import random
 import re
 
@@ -36,8 +37,15 @@ INDEPENDENT = ["greedy", "balanced", "balanced_market", "peak_load_window", "pea
 ISO = re.compile(r"^\d{4}-\d\d-\d\dT\d\d:\d\d")
 
 
+RELABEL = ["relabel_events", "relabel_window", "relabel_core"]
+
+
 def gen_cases(tier, seed):
     n = 10 if tier == "quick" else 150
+    m = 60 if tier == "quick" else 1500
+    for i in range(m):
+        for kind in RELABEL:
+            yield {"seed": seed, "i": i, "relabel": kind, "pid": PID}
     for i in range(n):
         for st in scen.STRATEGIES:
             for var in VARIANTS:
@@ -153,8 +161,85 @@ def add_connector(full, rng):
     return scn
 
 
+_POOL = {}
+
+
+def _pool(kind, seed):
+    """source cases of the C07 / C15 generators (valid ones only), cached per worker"""
+    key = (kind, seed)
+    if key not in _POOL:
+        import itertools
+        if kind == "relabel_events":
+            import c07
+            src = [c for c in itertools.islice(c07.gen_cases("quick", seed), 20000)
+                   if c["k"] == "run" and not c.get("bad") and not c.get("inj")]
+        else:
+            import c15
+            want = "win" if kind == "relabel_window" else "core"
+            src = [c for c in c15.gen_cases("quick", seed) if c["k"] == want and not c.get("bad")]
+            if want == "core":   # configurations with content first
+                src.sort(key=lambda c: -len(json.dumps(c["cst"])))
+        _POOL[key] = src
+    return _POOL[key]
+
+
+def eval_relabel(case):
+    """the model is run on the RELABELLED input (tie), the real code on both; the real results must agree"""
+    kind = case["relabel"]
+    rng = random.Random("C16r:%s:%s:%s" % (case["seed"], case["i"], kind))
+    if "src" in case:
+        src, k = case["src"], case["k"]
+    else:
+        pool = _pool(kind, case["seed"])
+        src = pool[rng.randrange(len(pool))] if kind == "relabel_events" else pool[rng.randrange(min(len(pool), 4000))]
+        k = rng.choice([1, 2, 3, 5, 9, 52, -1, -4])
+    days = datetime.timedelta(days=7 * k)
+    full = dict(case, src=src, k=k)
+    viol, stats = [], [kind]
+    if kind == "relabel_events":
+        import c07
+        a = c07.eval_case(src)
+        sh = shift_times(src, days)
+        b = c07.eval_case(sh)
+        us = int(days.total_seconds()) * 1000000
+
+        def norm(txt):
+            return " ".join(str(int(t) - us) if re.match(r"^-?\d{15,}$", t) else t for t in txt.split(" "))
+        if norm(b["impl"][0]) != a["impl"][0]:
+            viol.append(("shift_weeks", "C16:event_pipeline_changes_under_shift",
+                         "k=%d: %s" % (k, first_diff(a["impl"][0].split(" "), norm(b["impl"][0]).split(" ")))))
+        return {"lines": b["lines"], "impl": ["@c07 " + x for x in b["impl"]], "violations": viol,
+                "nontrivial": a["nontrivial"], "stats": stats, "replay_case": full}
+    import c15
+    sh = copy.deepcopy(src)
+    for d in sh["days"]:
+        d["d"] = (datetime.date.fromisoformat(d["d"]) + days).isoformat()
+    if kind == "relabel_core" and sh["cst"] and sh["cst"].get("holidays"):
+        sh["cst"]["holidays"] = [(datetime.date.fromisoformat(h) + days).isoformat() if re.match(r"^\d{4}-\d\d-\d\d$", h)
+                                 else h for h in sh["cst"]["holidays"]]
+    a, b = c15.eval_case(src), c15.eval_case(sh)
+    ra, rb = a["impl"][0][1:], b["impl"][0][1:]
+    per = len(ra) // max(1, len(src["days"]))
+    for di, d in enumerate(src["days"]):
+        if kind == "relabel_window":
+            d0 = datetime.date.fromisoformat(d["d"])
+            inside = lambda s, x: datetime.date.fromisoformat(s["s"]) <= x <= datetime.date.fromisoformat(s["e"])  # noqa: E731
+            if any(inside(s, d0) != inside(s, d0 + days) for s in src["seasons"]):
+                stats.append("day_leaves_season")   # outside the property's quantifier
+                continue
+        if ra[di * per:(di + 1) * per] != rb[di * per:(di + 1) * per]:
+            viol.append(("shift_weeks", "C16:%s_changes_under_shift" % kind[8:],
+                         "k=%d day %s: %s vs %s" % (k, d["d"], ra[di * per:(di + 1) * per][:80],
+                                                    rb[di * per:(di + 1) * per][:80])))
+            break
+    return {"lines": b["lines"], "impl": ["@c15 " + x for x in b["impl"]], "violations": viol,
+            "nontrivial": a["nontrivial"], "stats": stats, "replay_case": full}
+
+
 def eval_case(case):
     from spice_ev import scenario as sc_mod
+    if case.get("relabel"):
+        return eval_relabel(case)
     if "scenario" in case:
         full = case
     else:
@@ -261,4 +346,8 @@ def eval_case(case):
 
 
 def compare(case, impl, model):
+    if impl.startswith("@c07 "):
+        return None if impl[5:] == model else "differs"
+    if impl.startswith("@c15 "):
+        return None if impl[5:] == model else "differs"
     return steptie.compare(impl, model)[1]
